@@ -66,7 +66,10 @@ def main():
             if rc != 0:
                 res[label] = "compile-failed: " + o[-300:]
                 continue
-            rc, o = sh([exe], timeout=120)
+            try:
+                rc, o = sh([exe], timeout=300)
+            except subprocess.TimeoutExpired:
+                rc = "timeout"
             res[label] = rc
             os.unlink(exe)
         out["demo_exit"] = res
